@@ -29,6 +29,5 @@ def run(tier):
                        'emitted as events; TLC recomputes the lexicographic order and the six derived operators on order ranks')
     for e in cm[:3] + sm[:1]:
         chk.sample(e)
-    chk.assumptions += ['Direction and PlanarDirection objects (normalised on construction) are compared through the dimension-less vector '
-                        'battery only on their stored components; Dimensions is covered by C06']
+    chk.assumptions += ['Direction and PlanarDirection are compared on objects built from small-integer vectors (finite values only); Dimensions is covered by C06']
     return chk.finish()
